@@ -14,11 +14,16 @@ import math
 from ..statemon import Reach
 
 RULE = ('row cases: one (reaction row, environment, exposure, mass, rest-time list) per case, all 513 rows on a '
-        'stratified 24-point grid plus log-uniform random points; distinct = distinct (row index, branch taken, '
+        'stratified 24-point grid plus log-uniform random points; the numbers are handed over as Python float / int, '
+        'numpy float64 / float32 / int64 / int32 scalars (every row meets every fluence decade 1e2..1e16 once as '
+        'float, once as Python int and once as numpy int64) and the rest times as list / tuple / numpy array, the '
+        'reference is evaluated at exactly the value passed; distinct = distinct (row index, branch taken, '
         'decade of fluence, decade of exposure, Cd-ratio class, fast-ratio class) whose reference activity is above '
         'the 1e-300 floor (a compared, non-zero chain solution); relation cases: distinct (isotope, relation) pairs '
         'evaluated on a non-zero activity; sample cases: distinct (set of atoms, abundance function) with at least '
-        'one activated product')
+        'one activated product; half of the sample cases carry a history: one or two other Sample objects calculated '
+        'before and re-read afterwards (own or shared, edited-in-place environment), or an earlier different '
+        'calculation on the judged Sample object itself')
 EXHAUSTIVE = False
 SUITE_UNDER_CONTRACTS = True   # thorough tier: the repository's tests run with the activity() postcondition attached
 TECHNIQUE = ('runtime monitoring: reference-model monitor (80-digit mpmath Bateman solutions over an independent '
@@ -110,6 +115,22 @@ def setup(ctx):
     reach.start()
 
 
+def _single_precision(*args):
+    """True when one of the numbers (or an entry / the dtype of a sequence) is a numpy float narrower than double."""
+    import numpy as np
+    for a in args:
+        if isinstance(a, np.ndarray):
+            if a.dtype.kind == 'f' and a.dtype.itemsize < 8:
+                return True
+        elif isinstance(a, np.floating):
+            if a.dtype.itemsize < 8:
+                return True
+        elif isinstance(a, (list, tuple)):
+            if any(isinstance(x, np.floating) and x.dtype.itemsize < 8 for x in a):
+                return True
+    return False
+
+
 def _suite_mode():
     """True under `python -m pvmon.suite`: no check function drains the anomalies there, so the
     postcondition raises and the repository test that triggered it fails."""
@@ -131,6 +152,7 @@ def _post_activity(isotope, mass, env, exposure, rest_times, res):
     except Exception:
         return
     i0 = min(range(len(rest)), key=rest.__getitem__) if rest else None
+    single = _single_precision(mass, exposure, getattr(env, 'fluence', None), rest_times)
     for ai, vals in res.items():
         row = rowmap.get(id(ai))
         post['values'] += len(vals)
@@ -151,7 +173,13 @@ def _post_activity(isotope, mass, env, exposure, rest_times, res):
             post['decay_pairs'] = post.get('decay_pairs', 0) + 1
             if want < 1e-290:
                 continue
-            if abs(v - want) > 1e-12 * want:
+            tol = 1e-12
+            if single:
+                # float32 arguments: the library's arithmetic is single precision (numpy scalar promotion)
+                if want < 1e-25 or a0 > 1e30:
+                    continue
+                tol = 1e-6 * (1 + (abs(rest[j]) + abs(rest[i0])) * math.log(2) / thalf)
+            if abs(v - want) > tol * want:
                 _state['anomalies'].append(dict(kind='rest-decay', row=row.index if row else None, j=j, value=v,
                                                 want=want, mass=mass, exposure=exposure))
     if _state['suite'] and _state['anomalies']:
@@ -167,6 +195,157 @@ def _env_case(fluence, cd, fr, exposure, mass, rest):
             'rest': list(rest)}
 
 
+# ----------------------------------------------------------------------------
+# argument forms: the same number handed over as another numeric type
+# ----------------------------------------------------------------------------
+INT_TAGS = ('int', 'i64', 'i32')
+I32_MAX = 2 ** 31 - 1
+
+
+def _typed(value, tag):
+    """The stored (exactly representable) value as the object handed to the library."""
+    if not tag or tag == 'float':
+        return value
+    import numpy as np
+    if tag in INT_TAGS:
+        if value != int(value):
+            raise ValueError('form %s needs an integral value, got %r' % (tag, value))
+        v = int(value)
+        return v if tag == 'int' else (np.int64(v) if tag == 'i64' else np.int32(v))
+    if tag == 'f64':
+        return np.float64(value)
+    if tag == 'f32':
+        x = np.float32(value)
+        if float(x) != value:
+            raise ValueError('form f32 needs a single-precision value, got %r' % (value,))
+        return x
+    raise ValueError('unknown form %r' % (tag,))
+
+
+def _f32(x):
+    import numpy as np
+    return float(np.float32(x))
+
+
+def _lib_rest(case):
+    """The rest times as handed to the library: list / tuple / numpy array of typed entries."""
+    tag = (case.get('forms') or {}).get('rest')
+    cont = case.get('rest_container') or 'list'
+    if cont == 'array':
+        import numpy as np
+        dtype = {'int': np.int64, 'i64': np.int64, 'i32': np.int32, 'f32': np.float32}.get(tag, np.float64)
+        return np.array(case['rest'], dtype=dtype)
+    vals = [_typed(t, tag) for t in case['rest']]
+    return tuple(vals) if cont == 'tuple' else vals
+
+
+def _lib_num(case, name):
+    return _typed(case[name], (case.get('forms') or {}).get(name))
+
+
+def _integral(x):
+    return x == int(x)
+
+
+def _grid_forms(case, i, j):
+    """Deterministic forms of a grid point: per (row, fluence decade) the three points j, j+8, j+16 carry
+    the fluence as float, Python int and numpy int64; integral masses / exposures / rest lists rotate
+    through the integer types, the rest container through list / tuple / array."""
+    forms = {}
+    g = (j + i) % 3
+    if g:
+        forms['fluence'] = ('int', 'i64')[g - 1]
+        case['fluence'] = int(case['fluence'])
+    for name, sel in (('mass', (j + i) % 4), ('exposure', (j // 2 + i) % 4)):
+        tag = (None, 'int', 'i64', 'i32')[sel]
+        if tag and _integral(case[name]):
+            forms[name] = tag
+            case[name] = int(case[name])
+    tag = (None, 'int', 'i64', 'i32')[(j // 3 + i) % 4]
+    if tag and all(_integral(t) for t in case['rest']):
+        forms['rest'] = tag
+        case['rest'] = [int(t) for t in case['rest']]
+    case['rest_container'] = ('list', 'tuple', 'array')[(j // 4 + i) % 3]
+    if forms:
+        case['forms'] = forms
+    return case
+
+
+def _random_forms(rng, case, f32=True, p=0.3):
+    """Random forms for a random case; values are re-drawn / rounded so that the stored number is exactly
+    what the typed object holds.  Integer fluences put weight on exact powers of ten up to 1e16."""
+    forms = {}
+    tags = ('int', 'i64', 'i32', 'f64', 'f32') if f32 else ('int', 'i64', 'i32', 'f64')
+    for name in ('fluence', 'mass', 'exposure', 'rest'):
+        if rng.random() >= p:
+            continue
+        tag = rng.choice(tags)
+        if tag in INT_TAGS:
+            if name == 'fluence':
+                hi = 9.3 if tag == 'i32' else 16
+                if rng.random() < 0.4:
+                    v = 10 ** rng.choice([k for k in (16, 16, 16, 15, 14, 12, 9, 8, 5, 2) if k <= hi])
+                else:
+                    v = min(int(round(10 ** rng.uniform(2, hi))), 10 ** 16)
+                case[name] = min(v, I32_MAX) if tag == 'i32' else v
+            elif name == 'mass':
+                case[name] = int(round(10 ** rng.uniform(0, 3)))
+            elif name == 'exposure':
+                case[name] = int(round(10 ** rng.uniform(0, 4)))
+            else:
+                case[name] = [int(round(t)) for t in case[name]]
+        elif tag == 'f32':
+            case[name] = [_f32(t) for t in case[name]] if name == 'rest' else _f32(case[name])
+        forms[name] = tag
+    for name in ('Cd_ratio', 'fast_ratio'):
+        if rng.random() < p / 2:
+            forms[name] = rng.choice(('int', 'i64', 'f64')) if _integral(case[name]) else 'f64'
+    u = rng.random()
+    if u < 0.3:
+        case['rest_container'] = 'tuple' if u < 0.15 else 'array'
+    if forms:
+        case['forms'] = forms
+    return case
+
+
+def _f32_params(case):
+    return sorted(k for k, v in (case.get('forms') or {}).items() if v == 'f32')
+
+
+def _f32_judgeable(sol, case, t, params):
+    """numpy keeps single precision when a float32 scalar meets Python floats, so a float32 argument makes the
+    library's own arithmetic single precision.  The value is judged (at the usual tolerance) only where that
+    arithmetic stays within ~1e-6 of the double evaluation: values far from the float32 underflow range and no
+    cancellation between the quantities that carry the single-precision rounding."""
+    R = _state['R']
+    if sol.kind == '2n' and params != ['rest']:
+        return False
+    try:
+        if float(sol.at_rest(t)) < 1e-25 or float(sol.root) < 1e-17 or float(sol.root) > 1e30:
+            return False
+    except OverflowError:
+        return False
+    lam = float(sol.lam)
+    if 'rest' in params and lam * t > 30:
+        return False
+    if sol.kind == 'burnup' and ('fluence' in params or 'exposure' in params):
+        u, v = abs(float(sol.U)), abs(float(sol.V))
+        mx = max(u, v)
+        if u == v:
+            return False
+        amp = 1 + mx + mx / abs(v - u)
+        if 'fluence' in params:
+            k1, k2 = float(sol.k1), float(sol.k2)
+            den = abs(lam - k1 + k2)
+            if den == 0:
+                return False
+            amp += (lam + k1 + k2) / den
+        return amp <= 10
+    if sol.kind == 'b' and 'exposure' in params:
+        return sol.kappa <= 10
+    return True
+
+
 def _grid_point(row, j):
     i = row.index
     fluence = F_GRID[j % 8]
@@ -176,7 +355,7 @@ def _grid_point(row, j):
         fr = 0 if j % 12 == 5 else 50
     else:
         fr = (0, 50)[(j + i) % 2]
-    return _env_case(fluence, cd, fr, exposure, M_GRID[(j + j // 4) % 4], REST_GRID[(j + i) % 5])
+    return _grid_forms(_env_case(fluence, cd, fr, exposure, M_GRID[(j + j // 4) % 4], REST_GRID[(j + i) % 5]), i, j)
 
 
 def _random_env(rng, fast_row=False):
@@ -227,6 +406,13 @@ def _random_atoms(rng, T, mm):
     return [[z, a, n] for (z, a), n in atoms.items()]
 
 
+def _sample_case(rng, T):
+    c = _random_forms(rng, _random_env(rng), f32=False, p=0.25)
+    c['atoms'] = _random_atoms(rng, T, _state['mm'])
+    c['abundance'] = rng.choice(['NIST', 'IAEA'])
+    return c
+
+
 def generate(ctx):
     T = _state['T']
     rng = ctx.rng
@@ -244,7 +430,7 @@ def generate(ctx):
             c.update(row=row.index, src='grid')
             yield 'row', c
         for _ in range(nrandom):
-            c = _random_env(rng, row.fast)
+            c = _random_forms(rng, _random_env(rng, row.fast))
             c.update(row=row.index, src='random')
             yield 'row', c
     # 3. relation monitors per target nuclide
@@ -253,14 +439,32 @@ def generate(ctx):
         if not ctx.mine(n):
             continue
         for _ in range(nrel):
-            c = _random_env(rng, any(r.fast for r in T.by_iso[key]))
+            c = _random_forms(rng, _random_env(rng, any(r.fast for r in T.by_iso[key])), f32=False, p=0.15)
             c.update(Z=key[0], A=key[1], k=10 ** rng.uniform(-2, 2), t2=c['exposure'] * (1.01 + rng.random()))
             yield 'relations', c
     # 4. Sample workloads
     for _ in range(ctx.scale(250, 1500)):
-        c = _random_env(rng)
-        c['atoms'] = _random_atoms(rng, T, _state['mm'])
-        c['abundance'] = rng.choice(['NIST', 'IAEA'])
+        c = _sample_case(rng, T)
+        if rng.random() < 0.5:
+            # history: other Sample objects calculated before (kept alive, re-read afterwards), or an earlier,
+            # different calculation on the judged object itself
+            hist = []
+            for _h in range(rng.randint(1, 2)):
+                u = rng.random()
+                mode = 'other' if u < 0.5 else ('other_shared_env' if u < 0.7 else 'same_object')
+                if mode == 'same_object' and any(h['mode'] == 'same_object' for h in hist):
+                    mode = 'other'
+                sub = _sample_case(rng, T)
+                if mode == 'same_object':
+                    sub['atoms'] = c['atoms']
+                    if rng.random() < 0.5:
+                        sub['mass'], f = c['mass'], dict(sub.get('forms') or {})
+                        f.pop('mass', None)
+                        if (c.get('forms') or {}).get('mass'):
+                            f['mass'] = c['forms']['mass']
+                        sub['forms'] = f
+                hist.append({'mode': mode, 'case': sub})
+            c['history'] = hist
         yield 'sample', c
     # 5. error path probe (non-physical mass), a bounded handful
     keys = sorted(k for k, lst in T.by_iso.items() if any(r.reaction not in ('b', '2n') for r in lst))
@@ -379,15 +583,28 @@ def _rest(case, j):
         return 0
 
 
-def _lib_env(case):
+def _lib_env(case, env=None):
+    """The environment of the case (typed numbers); an existing *env* object is edited in place instead."""
     A = _state['A']
-    if case.get('env_init'):
+    fl, cd, fr = _lib_num(case, 'fluence'), _lib_num(case, 'Cd_ratio'), _lib_num(case, 'fast_ratio')
+    if env is None and case.get('env_init'):
         f0, cd0, fr0 = case['env_init']
         env = A.ActivationEnvironment(fluence=f0, Cd_ratio=cd0, fast_ratio=fr0)
         env.epithermal_reduction_factor      # read once with the initial settings
-        env.fluence, env.Cd_ratio, env.fast_ratio = case['fluence'], case['Cd_ratio'], case['fast_ratio']
+    if env is not None:
+        env.fluence, env.Cd_ratio, env.fast_ratio = fl, cd, fr
         return env
-    return A.ActivationEnvironment(fluence=case['fluence'], Cd_ratio=case['Cd_ratio'], fast_ratio=case['fast_ratio'])
+    return A.ActivationEnvironment(fluence=fl, Cd_ratio=cd, fast_ratio=fr)
+
+
+def _forms_text(case):
+    f = case.get('forms') or {}
+    names = {'int': 'Python int', 'i64': 'numpy.int64', 'i32': 'numpy.int32', 'f64': 'numpy.float64',
+             'f32': 'numpy.float32'}
+    parts = ['%s=%r as %s' % (k, case[k], names.get(v, v)) for k, v in sorted(f.items())]
+    if (case.get('rest_container') or 'list') != 'list':
+        parts.append('rest times in a %s' % case['rest_container'])
+    return ' [%s]' % ', '.join(parts) if parts else ''
 
 
 def _cd_class(cd):
@@ -428,8 +645,12 @@ def check_row(ctx, case):
 
     def solver(r, mass, exposure):
         return R.solve(r, mass, case['fluence'], case['Cd_ratio'], case['fast_ratio'], exposure)
+    f32 = _f32_params(case)
+    for name, tag in sorted((case.get('forms') or {}).items()):
+        ctx.count('forms.%s.%s' % (name, tag))
+    ctx.count('forms.rest_container.' + (case.get('rest_container') or 'list'))
     try:
-        res = A.activity(iso, case['mass'], env, case['exposure'], rest)
+        res = A.activity(iso, _lib_num(case, 'mass'), env, _lib_num(case, 'exposure'), _lib_rest(case))
     except Exception as exc:
         _state['anomalies'] = []
         ctx.evaluated(what='no-exception')
@@ -464,23 +685,36 @@ def check_row(ctx, case):
     if row.fast:
         ctx.count('evaluated.fast_rows')
     nontrivial = False
+    if case['fluence'] >= 1e15 and (case.get('forms') or {}).get('fluence') in ('int', 'i64'):
+        ctx.count('forms.fluence_top_decade_as_%s' % case['forms']['fluence'])
     for j, t in enumerate(rest):
         want = sol.at_rest(t)
-        g = got[j]
+        try:
+            g = float(got[j])
+        except Exception:
+            ctx.violation('%s: activity at rest %r h is %r, not a real number' % (row.label(), t, got[j]), kind='shape')
+            break
+        if f32:
+            # single-precision arguments: judged only where single-precision arithmetic cannot explain a difference
+            if not _f32_judgeable(sol, case, t, f32):
+                ctx.count('float32.unjudged')
+                continue
+            ctx.count('float32.judged')
         ctx.evaluated(what='activity-vs-chain-solution')
         diff = abs(R.mpf(g) - want)
         if diff <= FLOOR:
             continue
         nontrivial = True
         err = R.relerr(g, want)
-        ctx.observe('relerr.%s' % br, min(err, 1e300))
+        ctx.observe('relerr.%s%s' % (br, '.float32_arguments' if f32 else ''), min(err, 1e300))
         if err <= TOL:
             ctx.observe('relerr_within_tolerance.%s' % br, err)
             continue
         ev = _evidence(g, sol, case, scale=R.M.exp(-sol.lam * R.mpf(t)))
         ctx.violation('%s: activity %r at rest %r h differs from the chain solution %s by %.3g relative '
-                      '(branch %s, kappa %.3g)' % (row.label(), g, t, R.M.nstr(want, 17), err, br, sol.kappa),
-                      kind='mismatch', evals=[ev])
+                      '(branch %s, kappa %.3g)%s'
+                      % (row.label(), g, t, R.M.nstr(want, 17), err, br, sol.kappa, _forms_text(case)),
+                      kind='mismatch', evals=[ev], forms=case.get('forms') or {})
         break
     if nontrivial:
         ctx.distinct_case(('row', row.index, br, math.floor(math.log10(case['fluence'])),
@@ -502,9 +736,10 @@ def check_relations(ctx, case):
     def solver(r, mass, exposure):
         return R.solve(r, mass, case['fluence'], case['Cd_ratio'], case['fast_ratio'], exposure)
     try:
-        a1 = A.activity(iso, m, env, t1, rest)
-        a2 = A.activity(iso, m * k, env, t1, rest)
-        a3 = A.activity(iso, m, env, t2, rest)
+        lrest = _lib_rest(case)
+        a1 = A.activity(iso, _lib_num(case, 'mass'), env, _lib_num(case, 'exposure'), lrest)
+        a2 = A.activity(iso, m * k, env, _lib_num(case, 'exposure'), lrest)
+        a3 = A.activity(iso, _lib_num(case, 'mass'), env, t2, lrest)
     except Exception as exc:
         _state['anomalies'] = []
         ctx.evaluated(what='no-exception')
@@ -567,7 +802,7 @@ def check_relations(ctx, case):
                           kind='exposure-bound', evals=evals())
 
 
-def _expected_sample(case):
+def _expected_sample(case, masses_only=False):
     """{row index: [reference activity per rest time]} from the atoms of the case."""
     R, T, mm = _state['R'], _state['T'], _state['mm']
     atoms = [(int(z), int(a), n) for z, a, n in case['atoms']]
@@ -588,6 +823,8 @@ def _expected_sample(case):
                     ab = T.iaea_abundance(z, ai)
                 if ab:
                     iso_mass[(z, ai)] = iso_mass.get((z, ai), 0.0) + part * ab / 100.
+    if masses_only:
+        return iso_mass
     want = {}
     sols = {}
     for key, mass in iso_mass.items():
@@ -609,46 +846,72 @@ def _formula_text(case):
     return ''.join(parts)
 
 
-def check_sample(ctx, case):
-    """Sample.calculate_activation: mass fraction x abundance x chain solution, per product."""
+def _calculate_sample(ctx, case, sample=None, env=None):
+    """Run Sample.calculate_activation for the (sub-)case: on a new Sample or on *sample* (whose public mass is
+    assigned when it differs), with a new environment or *env* edited in place.  Returns
+    (sample, env, rest object passed, exposure object passed) or None when the library raised (violation recorded)."""
     R, T, A = _state['R'], _state['T'], _state['A']
     text = _formula_text(case)
-    want, sols, iso_mass = _expected_sample(case)
     abundance = A.NIST2001_isotopic_abundance if case['abundance'] == 'NIST' else A.IAEA1987_isotopic_abundance
-    rest = case['rest']
-    s = A.Sample(text, case['mass'])
+    mass = _lib_num(case, 'mass')
+    if sample is None:
+        sample = A.Sample(text, mass)
+    elif sample.mass != mass:
+        sample.mass = mass
+    env = _lib_env(case, env)
+    rest, exposure = _lib_rest(case), _lib_num(case, 'exposure')
 
     def solver(r, mass, exposure):
         return R.solve(r, mass, case['fluence'], case['Cd_ratio'], case['fast_ratio'], exposure)
     try:
-        s.calculate_activation(_lib_env(case), exposure=case['exposure'], rest_times=rest, abundance=abundance)
+        sample.calculate_activation(env, exposure=exposure, rest_times=rest, abundance=abundance)
     except Exception as exc:
         _state['anomalies'] = []
         ctx.evaluated(what='no-exception')
+        iso_mass = _expected_sample(case, masses_only=True)
         rows = [r for key in iso_mass for r in T.by_iso.get(key, [])]
         ctx.violation('Sample(%r).calculate_activation raised %s: %s' % (text, type(exc).__name__, exc),
                       kind='exception', exc_type=type(exc).__name__, exc_msg=str(exc)[:200],
                       small_negative_rows=_small_negative_rows(rows, case, lambda r: iso_mass[(r.Z, r.A)]))
-        return
+        return None
     _drain(ctx, case, solver)
+    return sample, env, rest, exposure
+
+
+def _products(ctx, sample, text):
+    """{row index: [float, ...]} of the Sample's result table."""
     got = {}
-    for q, vals in s.activity.items():
+    for q, vals in sample.activity.items():
         r = _state['rowmap'].get(id(q))
         if r is None:
             ctx.violation('Sample(%r): product %r is not a record of the public table' % (text, q), kind='sample-key')
             continue
-        got[r.index] = vals
-    known = 0
+        got[r.index] = [float(v) for v in vals]
+    return got
+
+
+def _compare_products(ctx, case, text, got, kind, note=''):
+    """Judge a result table against the abundance-weighted chain solutions of the case; returns
+    (number of mismatching products, want)."""
+    R, T = _state['R'], _state['T']
+    want, sols, _ = _expected_sample(case)
+    rest = case['rest']
+    bad = 0
     for idx in sorted(set(got) | set(want)):
         g = got.get(idx, [0.0] * len(rest))
         w = want.get(idx, [R.mpf(0)] * len(rest))
         row = T.by_index[idx]
+        if len(g) != len(rest):
+            ctx.violation('Sample(%r): product %s has %d values for %d rest times%s'
+                          % (text, row.label(), len(g), len(rest), note), kind=kind if note else 'shape')
+            bad += 1
+            continue
         for j in range(len(rest)):
             ctx.evaluated(what='sample-product')
             if abs(R.mpf(g[j]) - w[j]) <= FLOOR:
                 continue
             err = R.relerr(g[j], w[j])
-            if idx in sols:
+            if idx in sols and not note:
                 ctx.observe('relerr.sample.%s' % _branch(sols[idx]), min(err, 1e300))
             if err <= TOL:
                 continue
@@ -657,14 +920,81 @@ def check_sample(ctx, case):
                 # activity is proportional to mass, so the row's own evidence carries over
                 sol = sols[idx]
                 evs = [_evidence(g[j], sol, case, scale=R.M.exp(-sol.lam * R.mpf(rest[j])))]
-            ctx.violation('Sample(%r, %r g, %s abundance): product %s is %r at rest %r h, abundance-weighted chain '
-                          'solution gives %s (rel. err %.3g)' % (text, case['mass'], case['abundance'], row.label(),
-                                                                 g[j], rest[j], R.M.nstr(w[j], 17), err),
-                          kind='sample-mismatch', evals=evs, expected_row=idx in want, present=idx in got)
-            known += 1
+            ctx.violation('Sample(%r, %r g, %s abundance)%s: product %s is %r at rest %r h, abundance-weighted chain '
+                          'solution gives %s (rel. err %.3g)%s'
+                          % (text, case['mass'], case['abundance'], note, row.label(), g[j], rest[j],
+                             R.M.nstr(w[j], 17), err, _forms_text(case)),
+                          kind=kind, evals=evs, expected_row=idx in want, present=idx in got)
+            bad += 1
             break
+    return bad, want
+
+
+def _snapshot(got):
+    return sorted((idx, [repr(v) for v in vals]) for idx, vals in got.items())
+
+
+def check_sample(ctx, case):
+    """Sample.calculate_activation: mass fraction x abundance x chain solution, per product.  With a history, other
+    Sample objects are calculated first, stay alive and are re-read after the judged calculation: what they serve
+    then must still be their own result."""
+    text = _formula_text(case)
+    alive = []           # (sub-case, text, Sample, env, rest passed, exposure passed, snapshot)
+    sample = env = None
+    for h in case.get('history') or []:
+        sub, mode = h['case'], h['mode']
+        ctx.count('sample.history.' + mode)
+        if mode == 'same_object':
+            # an earlier, different calculation on the object that is judged below
+            out = _calculate_sample(ctx, sub, sample=sample)
+            if out is None:
+                ctx.count('sample.history_step_raised')
+                continue
+            sample = out[0]
+            continue
+        out = _calculate_sample(ctx, sub)
+        if out is None:
+            ctx.count('sample.history_step_raised')
+            continue
+        stext = _formula_text(sub)
+        alive.append((sub, stext, out[0], out[1], out[2], out[3], _snapshot(_products(ctx, out[0], stext))))
+        if mode == 'other_shared_env':
+            env = out[1]     # the judged calculation edits this environment object in place and uses it
+    out = _calculate_sample(ctx, case, sample=sample, env=env)
+    if out is None:
+        return
+    s = out[0]
+    got = _products(ctx, s, text)
+    known, want = _compare_products(ctx, case, text, got, 'sample-mismatch')
     if known:
         ctx.count('sample.cases_with_a_mismatching_product')
+    # re-read the Sample objects calculated earlier
+    for n, (sub, stext, so, eo, rest_o, expo_o, snap) in enumerate(alive):
+        ctx.evaluated(what='sample-reread')
+        ctx.count('sample.reread')
+        note = ' re-read after %d later Sample calculation(s)' % (len(alive) - n)
+        now = _products(ctx, so, stext)
+        if _snapshot(now) != snap:
+            # it serves something else than right after its own calculation: held to its own reference again
+            bad, _w = _compare_products(ctx, sub, stext, now, 'sample-reread-mismatch', note=note)
+            if not bad:
+                ctx.count('sample.reread_changed_within_tolerance')
+        for name, passed in (('rest_times', rest_o), ('exposure', expo_o), ('environment', eo)):
+            if not hasattr(so, name):
+                continue
+            cur = getattr(so, name)
+            ctx.evaluated(what='sample-reread-attribute')
+            same = cur is passed
+            if not same and name == 'rest_times':
+                try:
+                    same = [float(t) for t in cur] == [float(t) for t in passed]
+                except Exception:
+                    same = False
+            elif not same and name == 'exposure':
+                same = bool(cur == passed)
+            if not same:
+                ctx.violation('Sample(%r)%s: its %s is %r, the calculation was made with %r'
+                              % (stext, note, name, cur, passed), kind='sample-reread-state', attribute=name)
     if want:
         ctx.distinct_case(('sample', tuple(sorted((int(z), int(a)) for z, a, _ in case['atoms'])), case['abundance']))
     ctx.count('sample.products_compared', len(set(got) | set(want)))
@@ -673,6 +1003,8 @@ def check_sample(ctx, case):
     if any(not a for _, a, _ in case['atoms']):
         ctx.count('sample.with_natural_element')
     ctx.count('sample.abundance.' + case['abundance'])
+    for name, tag in sorted((case.get('forms') or {}).items()):
+        ctx.count('sample.forms.%s.%s' % (name, tag))
 
 
 def check_error_path(ctx, case):
@@ -684,7 +1016,7 @@ def check_error_path(ctx, case):
     try:
         ctx.evaluated(what='error-path')
         try:
-            A.activity(iso, case['mass'], _lib_env(case), case['exposure'], case['rest'])
+            A.activity(iso, _lib_num(case, 'mass'), _lib_env(case), _lib_num(case, 'exposure'), _lib_rest(case))
         except RuntimeError:
             ctx.count('errorpath.raised_RuntimeError')
         except Exception as exc:
@@ -720,6 +1052,10 @@ def finish(ctx):
                 'every reaction row of activation.dat must be compared with its chain solution')
     ctx.require('postcondition.activity.calls', 1, 'the postcondition on activation.activity must have been evaluated')
     ctx.require('reach.Sample._accumulate', 1, 'Sample workloads must reach the accumulation')
+    ctx.require('sample.reread', 1, 'earlier Sample objects must have been re-read after a later calculation')
+    ctx.require('sample.history.same_object', 1, 'a Sample object must have been calculated twice')
+    ctx.require('forms.fluence_top_decade_as_i64', 1, 'fluences >= 1e15 must have been passed as numpy int64')
+    ctx.require('forms.fluence_top_decade_as_int', 1, 'fluences >= 1e15 must have been passed as Python int')
 
 
 # ----------------------------------------------------------------------------
